@@ -258,10 +258,29 @@ class C20(common.Prop):
                 case["_padf"] = "pad value %r raises %s" % (padf, type(e).__name__)
                 return
 
+    def build_batch(self, case):
+        if not case.get("views") or case.get("malformed", "none") != "none":
+            return [self.build(v) for v in case["batch"]]
+        torch = self.torch
+        tens = [(v["items"][0][1] if v["k"] == "D" else v) for v in case["batch"]]
+        L = tens[0]["shape"][0]
+        tail = list(tens[0]["shape"][1:])
+        w = prod(tail) if tail else 1
+        def base_of(key, to):
+            rows = [[0] * w for _ in range(2 * L)]
+            for i in range(L):
+                rows[2 * i] = list(tens[1][key][i * w:(i + 1) * w])
+            for i in range(L):
+                rows[i] = list(tens[0][key][i * w:(i + 1) * w])
+            return torch.tensor([x for r in rows for x in r], dtype=torch.int64).to(to).reshape([2 * L] + tail)
+        bt, bm = base_of("data", self.dts[tens[0]["dt"]]), base_of("mask", torch.bool)
+        objs = [self.MaskedTensor(tensor=bt[:L], mask=bm[:L]), self.MaskedTensor(tensor=bt[::2], mask=bm[::2])]
+        return [({"a": o} if v["k"] == "D" else o) for v, o in zip(case["batch"], objs)]
+
     def run_impl(self, case):
         case.pop("_reuse", None)
         try:
-            batch = [self.build(v) for v in case["batch"]]
+            batch = self.build_batch(case)
             r = self.collate(batch, case)
         except Exception as e:  # every rejection is one class
             case["_impl_exc"] = "%s: %s" % (type(e).__name__, str(e)[:160])
@@ -568,7 +587,24 @@ class C20(common.Prop):
                     rng.shuffle(ex["items"])
         return out
 
+    def gen_views(self, rng):
+        """two masked examples of equal length that are different strided VIEWS of one recording, starting at the same address
+        (rec[:L] and rec[::2]): they hold different values and must be collated as the two examples they are"""
+        L = rng.randint(2, 4)
+        tail = [rng.choice([1, 2, 3])] if rng.random() < 0.7 else []
+        w = prod(tail) if tail else 1
+        dt = rng.choice([4, 5, 3])
+        rows = [[rng.randint(-50, 50) for _ in range(w)] for _ in range(2 * L)]
+        mrows = [[rng.randint(0, 1) for _ in range(w)] for _ in range(2 * L)]
+        def ex(idx):
+            return {"k": "M", "dt": dt, "shape": [L] + tail, "data": [x for i in idx for x in rows[i]], "mask": [x for i in idx for x in mrows[i]]}
+        exs = [ex(range(L)), ex(range(0, 2 * L, 2))]
+        batch = [{"k": "D", "items": [[[97], e]]} for e in exs] if rng.random() < 0.6 else exs
+        return {"entry": "zpc", "pad": 0, "batch": batch, "malformed": "none", "views": True}
+
     def gen_structured(self, rng):
+        if rng.random() < 0.03:
+            return self.gen_views(rng)
         B = rng.choice([1, 2, 2, 3, 3, 4, 5])
         r = rng.random()
         pad = 0
